@@ -296,7 +296,7 @@ def stepLine (line : String) : String :=
         | _ => List.replicate n 0
       s!"{showRats out.dState} {showRats out.finalRhs} {showRats out.stages.flatten} {showRats est} {fsal}"
     | _, _, _, _, _, _, _ => bad
-  -- fixedrun rk|split <method> <n> <kickmask or -> <terms> <eps> <tolEps> <t0> <tf> <dt> <y0> <ops: i<target> | r, comma separated> :
+  -- fixedrun rk|split <method> <n> <kickmask or -> <terms> <eps> <tolEps> <t0> <tf> <dt> <y0> <ops: i<target> | f<j>@<target> (fault in the j-th integrator call) | r, comma separated> :
   -- whole fixed-step run with states (DV.Run), exact; output: times ; states (oldest first, states flattened) ; dt ; status
   | ["fixedrun", kind, name, n, mask, terms, eps, tolEps, t0, tf, dt, y0, ops] =>
     match n.toNat?, parseList? (·.toNat?) mask, parseList? parseTerm? (terms.replace ";" ","), parseRat? eps, parseRat? tolEps,
@@ -320,6 +320,12 @@ def stepLine (line : String) : String :=
           s.bind (fun s =>
             if op == "r" then some (Run.reset s)
             else if op.startsWith "i" then (parseRat? (op.drop 1).toString).map (fun t => Run.integrate cfg vops.add inc s t 100000)
+            else if op.startsWith "f" then
+              match (op.drop 1).toString.splitOn "@" with
+              | [j, t] => match j.toNat?, parseRat? t with
+                | some j, some t => some (Run.integrateFault cfg vops.add inc s t j 100000)
+                | _, _ => none
+              | _ => none
             else none)
         match (ops.splitOn ",").foldl step (some (Run.construct t0 tf dt y0)) with
         | none => bad
